@@ -287,7 +287,11 @@ fn run_inner<K: KeyLike>(case: &Case, prop: Prop, keep_trace: bool, keys: &[u16]
         }
     };
     let mut model = Model::new(kind, cfg);
-    let mut model_ok = true;
+    // an inconsistent BuildHasher (safe, contract-breaking user code): only memory safety is
+    // demanded; the index cannot stay consistent, so no model, no audit, and a shrinking resize
+    // is skipped (it may spin forever: a hang, not a memory hazard)
+    let chaos = cfg.hs.iter().any(|h| matches!(h, HSpec::Chaos(_)));
+    let mut model_ok = !chaos;
     let mut c02 = C02State {
         last: HashMap::new(),
         released: BTreeSet::new(),
@@ -305,6 +309,9 @@ fn run_inner<K: KeyLike>(case: &Case, prop: Prop, keep_trace: bool, keys: &[u16]
 
     for (i, op) in case.ops.iter().enumerate() {
         if !op.supported(kind) {
+            continue;
+        }
+        if chaos && (matches!(op, Op::Resize(n) if resize_target(*n) < sut.cap()) || matches!(op, Op::CloneSwap | Op::CloneDrop | Op::Iter { .. })) {
             continue;
         }
         rep.steps = i + 1;
@@ -444,6 +451,12 @@ fn run_inner<K: KeyLike>(case: &Case, prop: Prop, keep_trace: bool, keys: &[u16]
         match prop {
             Prop::C01 => c01_check(&sut, kind, cfg, op, i, &out, &view, keys)?,
             Prop::C02 => c02_check(&mut sut, kind, op, i, &out, &view_before, &view, keys, &mut c02, &mut rep.stats, case.keys == KeyMode::Str)?,
+            Prop::C03 if chaos => {
+                let b = take_bad();
+                if !b.is_empty() {
+                    return Err(vio(prop, i, kind, op, "dead-object-inconsistent-hasher", format!("step {i} {op:?} (with a BuildHasher that reseeds itself: safe user code): {}", b.join("; "))));
+                }
+            }
             Prop::C03 => {
                 if let Err(e) = sut.audit() {
                     return Err(vio(prop, i, kind, op, "audit", format!("step {i} {op:?}: structural audit failed: {e}; state [{}]", fmt_lists(kind, &view.lists))));
